@@ -181,14 +181,40 @@ def _dense(t_list, X):
 
     arg = DenseArgvals({f"input_dim_{k}": np.array(fl(t)) for k, t in enumerate(t_list)})
     X = np.asarray(X)
-    return DenseFunctionalData(arg, DenseValues(X if X.dtype.kind == "i" else np.array(X, dtype=float)))
+    # an int64 / float64 array is handed over AS IT IS (no copy: its memory layout is part of the input)
+    return DenseFunctionalData(arg, DenseValues(X if X.dtype in (np.int64, np.float64) else np.array(X, dtype=float)))
+
+
+def _layout(A, how):
+    """The same numbers in another MEMORY LAYOUT (the logical array is unchanged): column-major, the transpose of a points x curves
+    table, a strided slice of a finer table (every other column / row holds other numbers), negative strides."""
+    A = np.asarray(A)
+    if how in (None, "C"):
+        return A
+    if how == "F":
+        return np.asfortranarray(A)
+    if how == "T":
+        return np.ascontiguousarray(A.T).T
+    if how == "strided":
+        fine = np.full(tuple(2 * n for n in A.shape), 1e6 if A.dtype.kind == "f" else 10 ** 6, dtype=A.dtype)
+        fine[tuple(slice(None, None, 2) for _ in A.shape)] = A
+        return fine[tuple(slice(None, None, 2) for _ in A.shape)]
+    if how == "neg":
+        rev = np.ascontiguousarray(A[tuple(slice(None, None, -1) for _ in A.shape)])
+        return rev[tuple(slice(None, None, -1) for _ in A.shape)]
+    raise ValueError(how)
+
+
+LAYOUTS = ["F", "T", "strided", "neg"]
 
 
 def _arr(case, M):
-    """Exact rationals -> array; integer dtype when the case asks for it (counts, rounded measurements)."""
+    """Exact rationals -> array; integer dtype when the case asks for it (counts, rounded measurements); memory layout of the case."""
     if case.get("int"):
-        return np.array([[int(F(x)) for x in r] for r in M], dtype=np.int64).reshape(len(M), -1)
-    return np.array(fl(_Fm(M)))
+        A = np.array([[int(F(x)) for x in r] for r in M], dtype=np.int64).reshape(len(M), -1)
+    else:
+        A = np.array(fl(_Fm(M)))
+    return _layout(A, case.get("layout"))
 
 
 def _num(case, q):
@@ -431,6 +457,28 @@ def gen_cases(rng: Rng, tier):
         es = [0, 50] + rng.sample(range(1, 50), N - 2)
         X = [[Fraction(rng.randint(-8, 8), 2 ** es[i]) for _ in range(L)] for i in range(N)]  # curves of very different amplitude
         yield dict(kind="noise", order=order, X=_S(X), ck="dynrange", perm=[2, 0, 3, 1], off="0", a="3", c="1", int=False, t=[rs(x) for x in _grid(rng, L)])
+    # structured, in every run: MEMORY LAYOUT of the values (column-major, transposed table, strided slice of a finer table, negative
+    # strides) for every estimator; the references are the exact model and per-curve estimates on contiguous copies of the logical values
+    for lay in LAYOUTS:
+        for order in ([1, 2, 3, 7, 10] if big else [rng.choice([1, 2]), rng.choice([3, 5, 7, 10])]):
+            N, L = rng.randint(3, 6), order + rng.randint(3, 8)
+            X, ck = _curves(rng, N, L, "rand")
+            integer = rng.random() < 0.3
+            if integer:
+                X = [[Fraction(round(x)) for x in r] for r in X]
+            perm = list(range(N))
+            rng.shuffle(perm)
+            yield dict(kind="noise", order=order, X=_S(X), ck=ck, perm=perm, off="0", a="3", c=rs(Fraction(1000)), int=integer, layout=lay,
+                       t=[rs(x) for x in _grid(rng, L)])
+        N, m = rng.randint(3, 7), rng.randint(4, 9)
+        X, ck = _curves(rng, N, m, "rand")
+        perm = list(range(N))
+        rng.shuffle(perm)
+        yield dict(kind="meancov", t=[rs(x) for x in _grid(rng, m)], X=_S(X), perm=perm, ck=ck, a=rs(Fraction(-3, 2)),
+                   c=[rs(x) for x in rng.dyadics(m, -8, 8, 2)], off="0", int=False, layout=lay)
+        m1, m2 = rng.randint(2, 4), rng.randint(2, 4)
+        X, ck = _curves(rng, rng.randint(2, 5), m1 * m2, "rand")
+        yield dict(kind="mean2d", t1=[rs(x) for x in _grid(rng, m1)], t2=[rs(x) for x in _grid(rng, m2)], X=_S(X), ck=ck, layout=lay)
     # structured, in every run: ESTIMATORS LEAVE THE DATA AS THEY WERE: every estimator (noise variance of EVERY order 1..10, mean,
     # covariance with every option) on dense, irregular (both encodings) and multivariate data; the object is compared with a snapshot
     # taken before and the other estimators are run afterwards against a fresh twin
@@ -817,7 +865,7 @@ def _run_impl(case):
         out = _call(go)
     elif kind == "mean2d":
         t1, t2 = _Fv(case["t1"]), _Fv(case["t2"])
-        X = np.array(fl(_Fm(case["X"]))).reshape(-1, len(t1), len(t2))
+        X = _layout(np.array(fl(_Fm(case["X"]))).reshape(-1, len(t1), len(t2)), case.get("layout"))
 
         def go():
             fd = _dense([t1, t2], X)
@@ -934,11 +982,13 @@ def _run_impl(case):
         else:
             t = _Fv(case["t"])
             out["v"] = _call(lambda: float(_dense([t], X).noise_variance(order)))
-            out["v_shift"] = _call(lambda: float(_dense([t], X + c).noise_variance(order)))
-            out["v_scale"] = _call(lambda: float(_dense([t], a * X).noise_variance(order)))
-            out["v_perm"] = _call(lambda: float(_dense([t], X[case["perm"]]).noise_variance(order)))
-            out["per"] = _call(lambda: [float(_estimate_noise_variance(x, order)) for x in X])
-            out["per_shift"] = _call(lambda: [float(_estimate_noise_variance(x + c, order)) for x in X])
+            L_ = case.get("layout")
+            out["v_shift"] = _call(lambda: float(_dense([t], _layout(X + c, L_)).noise_variance(order)))
+            out["v_scale"] = _call(lambda: float(_dense([t], _layout(a * X, L_)).noise_variance(order)))
+            out["v_perm"] = _call(lambda: float(_dense([t], _layout(X[case["perm"]], L_)).noise_variance(order)))
+            # per-curve reference on CONTIGUOUS COPIES of the logical values (not on the same views the data set holds)
+            out["per"] = _call(lambda: [float(_estimate_noise_variance(np.array(x, copy=True, order="C"), order)) for x in X])
+            out["per_shift"] = _call(lambda: [float(_estimate_noise_variance(np.array(x + c, copy=True, order="C"), order)) for x in X])
             out["singles"] = _call(lambda: [float(_dense([t], X[i:i + 1]).noise_variance(order)) for i in range(len(X))])
 
             def multi():
@@ -1531,6 +1581,8 @@ def classify(case, impl):
         tags.append("irregular:some-curves-too-short")
     if case.get("int"):
         tags.append("dtype:int64")
+    if case.get("layout"):
+        tags.append("layout:" + case["layout"])
     if case.get("sized"):
         n = len(case["X"]) if case["kind"] == "meancov" else len(case["X"][0])
         tags.append("size-threshold:" + str(n))
